@@ -6,6 +6,7 @@ Open Scope N_scope.
 (* a queued frame without its chunks *)
 Definition strip (q : qframe) : qframe :=
   match q with
+  | QDataP id es d _ => QData id es d
   | QHdr id es p f _ => QHdr id es p f []
   | QPush id pr f _ => QPush id pr f []
   | _ => q
@@ -81,15 +82,15 @@ Section Codec.
 End Codec.
 
 (* ---- what the endpoints' ledgers see is the same before and after preparation *)
-Lemma strip_data q q' : strip q' = strip q -> (forall id es d, q <> QData id es d) -> forall id es d, q' <> QData id es d.
-Proof. intros H Hn id es d ->. destruct q; cbn in H; try discriminate. eapply Hn. inversion H. reflexivity. Qed.
-
 Lemma strip_fsz q q' : strip q' = strip q -> fsz q' = fsz q.
-Proof. destruct q, q'; cbn; intro H; try discriminate; try reflexivity. inversion H; reflexivity. Qed.
+Proof. destruct q, q'; cbn; intro H; try discriminate; try reflexivity; inversion H; reflexivity. Qed.
 
 Lemma wl_send_strip l q q' : strip q' = strip q -> wl_recv_all l (send q') = wl_recv_all l (send q).
 Proof.
   intro H. destruct q, q'; cbn [strip] in H; try discriminate H; try (inversion H; subst; reflexivity).
+  - inversion H; subst. first [apply wl_send_datap | symmetry; apply wl_send_datap].
+  - inversion H; subst. first [apply wl_send_datap | symmetry; apply wl_send_datap].
+  - inversion H; subst. rewrite !wl_send_datap. reflexivity.
   - rewrite !wl_recv_all_send_nodata; try reflexivity; intros; discriminate.
   - rewrite !wl_recv_all_send_nodata; try reflexivity; intros; discriminate.
 Qed.
@@ -121,8 +122,10 @@ Proof.
 Qed.
 Lemma wus_conts id ch : wus (conts id ch) = [].
 Proof. induction ch as [|c r IH]; [reflexivity|]. cbn [conts]. destruct r; [reflexivity|]. cbn [wus]. exact IH. Qed.
+Lemma wus_pieces : forall fuel m id d es, wus (wdata_pieces fuel m id d es) = [].
+Proof. induction fuel as [|k IH]; intros; cbn [wdata_pieces]; [reflexivity|]. destruct ((0 <? m) && (m <? len d)); [cbn [wus]; apply IH|reflexivity]. Qed.
 Lemma wus_send q : wus (send q) = [].
-Proof. destruct q; cbn [send wus]; rewrite ?wus_conts; reflexivity. Qed.
+Proof. destruct q; cbn [send wus]; rewrite ?wus_conts, ?wus_pieces; reflexivity. Qed.
 Lemma wus_sends l : wus (sends l) = [].
 Proof. unfold sends. induction l as [|q r IH]; [reflexivity|]. cbn [flat_map]. rewrite wus_app, wus_send, IH. reflexivity. Qed.
 
@@ -138,8 +141,10 @@ Qed.
 
 Lemma conn_conts id ch : filter is_conn (conts id ch) = [].
 Proof. induction ch as [|c r IH]; [reflexivity|]. cbn [conts]. destruct r; [reflexivity|]. cbn [filter is_conn]. exact IH. Qed.
+Lemma conn_pieces : forall fuel m id d es, filter is_conn (wdata_pieces fuel m id d es) = [].
+Proof. induction fuel as [|k IH]; intros; cbn [wdata_pieces]; [reflexivity|]. destruct ((0 <? m) && (m <? len d)); [cbn [filter is_conn]; apply IH|reflexivity]. Qed.
 Lemma conn_send q : filter is_conn (send q) = [].
-Proof. destruct q; cbn [send filter is_conn]; rewrite ?conn_conts; reflexivity. Qed.
+Proof. destruct q; cbn [send filter is_conn]; rewrite ?conn_conts, ?conn_pieces; reflexivity. Qed.
 Lemma conn_sends l : filter is_conn (sends l) = [].
 Proof. unfold sends. induction l as [|q r IH]; [reflexivity|]. cbn [flat_map]. rewrite filter_app, conn_send, IH. reflexivity. Qed.
 
